@@ -10,7 +10,7 @@ from vf import pbgen
 
 SHARDS = {'quick': 16, 'thorough': 64}
 TIMEOUT = {'quick': 1800, 'thorough': 7200}
-MUST_HIT = ['RoundTrip.tree-compared', 'RoundTrip.second-translation', 'Home.function', 'Home.bridge',
+MUST_HIT = ['EarlierObject.rechecked', 'RoundTrip.tree-compared', 'RoundTrip.second-translation', 'Home.function', 'Home.bridge',
             'Home.operation', 'Home.derived', 'Construct.SelectRelatedWhereNode', 'Construct.RelateUsingNode',
             'Construct.ForEachNode', 'Construct.IndexAccessNode', 'Construct.InstanceInvocationNode',
             'Construct.FunctionInvocationNode', 'Construct.EnumOrNamedConstantNode', 'Construct.ParamAccessNode',
@@ -130,6 +130,8 @@ def check_program(ctx, rng, home):
         if ' transform ' in gen or '= bridge ' in gen or ' bridge ' in gen.replace('\n    bridge ', ''):
             key = 'generated-text/statement-keyword-inside-expression'
         raise Mismatch(key, 'generated text does not parse: %s\n--- original\n%s\n--- generated\n%s' % (e, text, gen))
+    ctx.later('generated-text', (lambda inst=inst: __import__('bridgepoint').sourcegen.gen_text_action(inst)),
+              'text generated from the prebuilt instances')
     ctx.hit('RoundTrip.tree-compared')
     probs = om.compare(tree, got)
     if probs:
